@@ -92,6 +92,13 @@ def gen_cases(rng, nprog, nif, nconj=3):
             n = eg.without_hyps(g)
             if eg.goal_text(n) not in [c.text for c in cases if c.pidx == pidx]:
                 cases.append(Case(pidx, p, n, "nohyp"))
+    # deep chains (9..14 where-clause steps): always one supertrait chain and one parameter-bound chain per run
+    for param in (False, True):
+        p = eg.shape_deep(rng, param=param)
+        pidx = len(progs)
+        progs.append(p)
+        for g in p.deep_goals:
+            cases.append(Case(pidx, p, g, "deep"))
     for _ in range(nprog):
         p = eg.gen_program(rng)
         if rng.random() < 0.3:
